@@ -56,7 +56,9 @@ def doc(tag, variant):
     if variant == "empty":
         return None
     if variant == "list":
-        return [tag]
+        # `dup` is shared by every list document: under arrays=unique a merge then REBUILDS the root list, so a
+        # driver (or Merger) that keeps working on the root object it saw first shows up in the next step (dup comes first: the rebuild then precedes the append of TAG)
+        return ["dup", tag]
     if variant == "map":
         return {"a": [tag], tag: 1, "last": tag}
     return {"a": [tag, "dup"], "h": {tag: 1, "k": tag}, "s": SetT((tag, "m")), "r": [{"a": tag}], "last": tag}
@@ -443,7 +445,7 @@ def run(tier="quick", seed=0, jobs=None):
         _cleanup()
     bounds = {
         "streams": "lengths 1..4 on both sides (right side also 0: a single multi-document file); every position is an empty document "
-                   "or a position-tagged document: map = {a: [TAG], TAG: 1, last: TAG}; list = [TAG]; "
+                   "or a position-tagged document: map = {a: [TAG], TAG: 1, last: TAG}; list = [dup, TAG]; "
                    "rich = {a: [TAG, dup], h: {TAG: 1, k: TAG}, s: !!set {TAG, m}, r: [{a: TAG}], last: TAG} (lengths 1..3)",
         "modes": list(MODES), "policies": POLICIES,
         "channels": "driver functions on Merger lists (all cases with a right stream); merge_docs with the right stream in a file and "
